@@ -1224,6 +1224,11 @@ fn plan_module(r: &mut Rng, cfg: &GenCfg, mi: usize, name: &str, decls: &mut Vec
     r.shuffle(&mut value_names);
     r.shuffle(&mut type_names);
     r.shuffle(&mut ctor_names);
+    // one module in five declares a constructor spelled like one of the prelude's: the
+    // module's own declaration shadows it (the prelude is the outermost scope of all)
+    if r.chance(1, 5) {
+        ctor_names.push(*r.pick(&["Nil", "Ok", "Error", "True", "False"]));
+    }
     for _ in 0..n {
         match r.below(10) {
             0..=4 => {
